@@ -9,6 +9,7 @@ import (
 	"crypto/tls"
 	"fmt"
 	"net/http"
+	"sync/atomic"
 )
 
 // VerifAdminHandler builds the real, unexported adminHandler exactly the way
@@ -90,4 +91,16 @@ func VerifRunningAdminHandler(remote bool) (http.Handler, *tls.Config) {
 		return nil, nil
 	}
 	return srv.Handler, srv.TLSConfig
+}
+
+// VerifSetExiting sets the process-wide "exiting" flag (what Exiting reports)
+// and returns its previous value. While the flag is set, exitProcess returns
+// at once ("only do it once"), so a harness can let a request reach the real
+// /stop handler without the process going away.
+func VerifSetExiting(on bool) bool {
+	var v int32
+	if on {
+		v = 1
+	}
+	return atomic.SwapInt32(exiting, v) == 1
 }
